@@ -37,3 +37,13 @@ Qed.
 Lemma rewritten_file_is_reparsed : forall (R : Type) (parse : string -> R) s p a b,
   run parse s [Write p a; Parse p; Write p b; Parse p] = [Some (parse a); Some (parse b)].
 Proof. intros. simpl. now rewrite String.eqb_refl. Qed.
+
+(* whatever was read or exported before, a read gives the parsed result and an export its csv *)
+Lemma csv_is_pure : forall (Res C : Type) (csv : Res -> C) (r : Res) ops k,
+  nth_error (answers csv r ops) k
+  = option_map (fun o => match o with ReadResult => inl r | Export => inr (csv r) end) (nth_error ops k).
+Proof. intros. unfold answers. apply nth_error_map. Qed.
+
+Lemma export_twice : forall (Res C : Type) (csv : Res -> C) (r : Res),
+  answers csv r [ReadResult; Export; ReadResult; Export] = [inl r; inr (csv r); inl r; inr (csv r)].
+Proof. reflexivity. Qed.
